@@ -334,7 +334,7 @@ func families(run *vk.Run) []*family {
 			return 0
 		}, argMenuCore, []fedlab.FieldRef{{Type: "Review", Field: "author"}}, []int{1, 2, 1}, []int{1, 2, 2}),
 		nearFamily(run, "S-abs", abs, fedlab.SAbsUniverse(abs), func(r fedlab.FieldRef) int {
-			if r.Type == "Book" || r.Field == "search" {
+			if r.Type == "Book" || r.Field == "search" || r.String() == "Author.name" {
 				return 1
 			}
 			return 0
